@@ -160,3 +160,36 @@ Proof.
   split; [unfold finding_C46_a; vm_compute; discriminate|].
   repeat split; vm_compute; reflexivity.
 Qed.
+
+(* The hypotheses are needed (both runs are in corpus/C46.jsonl and behave the same in the real code). *)
+
+(* a descriptor whose uid is another stream's name: the buffered row of "primary" is appended to "baseline" at stop *)
+Example C46_namespace_hypothesis_needed : exists bs docs st,
+  run bs docs = (st, None) /\ is_run docs
+  /\ concat (partitions "primary" (s_log st)) <> spec_rows [] docs "primary".
+Proof.
+  exists 5%Z,
+    [ DStart (mkStart "run-1" [] None);
+      DDescriptor (mkDesc "u1" "primary" 1001 [("x"%string, 0%Z)] None);
+      DEvent (mkEv "u1" 1 1101 [("x"%string, VZ 1)] [("x"%string, VZ 5001)]);
+      DDescriptor (mkDesc "primary" "baseline" 1002 [("x"%string, 0%Z)] None);
+      DStop [] ].
+  eexists. split; [vm_compute; reflexivity|]. split; [apply is_run_b_sound; vm_compute; reflexivity|].
+  vm_compute. discriminate.
+Qed.
+
+(* seq_nums not parallel to indices: [0,2)/seq [1,3) and [2,3)/seq [10,11) are merged into seq [1,11) *)
+Example C46_seq_alignment_needed : exists bs docs st,
+  run bs docs = (st, None) /\ is_run docs /\ sd_wf docs
+  /\ ~ Permutation (flat_map expand_seq (puts_of "p_c" (s_log st))) (flat_map expand_seq (received_for "p_c" st docs)).
+Proof.
+  exists 5%Z,
+    [ DStart (mkStart "run-1" [] None);
+      DDescriptor (mkDesc "d1" "p" 1001 [("c"%string, 1%Z)] None);
+      DSres (mkSR "sr1" "c" "/d");
+      DSdatum (mkSD "sd1" "sr1" "d1" 0 2 1 3); DSdatum (mkSD "sd2" "sr1" "d1" 2 3 10 11);
+      DStop [] ].
+  eexists. split; [vm_compute; reflexivity|]. split; [apply is_run_b_sound; vm_compute; reflexivity|].
+  split; [apply sd_wf_b_sound; vm_compute; reflexivity|].
+  intros P. apply Permutation_length in P. vm_compute in P. discriminate.
+Qed.
